@@ -32,7 +32,7 @@ T = 'chainables.tree'
 
 
 def run(ctx: Ctx):
-  for r in (r1, r2, r3):
+  for r in (r1, r2, r3, r4):
     ctx.guard(r)
 
 
@@ -85,6 +85,16 @@ def r1(ctx: Ctx):
     if sub is not None and 'tree' in {y.id for y in ast.walk(sub) if isinstance(y, ast.Name)}:
       ctx.fail(rule, fi, c, 'the recursion descends into the original tree'
                ' instead of the copy')
+  reassigned = [x for x in walk_no_nested(fi.node) if isinstance(x, ast.Name)
+                and x.id == 'in_place' and isinstance(x.ctx, ast.Store)]
+  if reassigned:
+    ctx.fail(rule, fi, f'_set_by_path: in_place reassigned at line {reassigned[0].lineno}',
+             'the in_place flag is overwritten inside _set_by_path: the levels'
+             ' below are then written in place during a copying set, so'
+             ' copy_and_set modifies the caller\'s nested containers',
+             node=reassigned[0])
+  else:
+    ctx.ok(rule, fi, 'in_place is never reassigned', fi.node)
   rets = [x for x in walk_no_nested(fi.node) if isinstance(x, ast.Return)]
   last = rets[-1] if rets else None
   if last is not None and unparse(last.value) == 'result':
@@ -218,10 +228,59 @@ def r3(ctx: Ctx):
   ctx.floor(rule, 4)
 
 
+def r4(ctx: Ctx):
+  rule = 'R-C18-4'
+  ctx.rule(rule, 'reserved-key test: _is_key(candidate, reserved) requires the'
+           ' CANDIDATE to be an instance of the reserved key\'s type (a plain'
+           ' string spelled like a reserved key is an ordinary key), and every'
+           ' call site passes the reserved sentinel as the second argument')
+  repo = ctx.repo
+  fi = repo.func(T, '_is_key')
+  ps = fi.params()
+  if len(ps) != 2:
+    raise AnalysisError(f'{rule}: _is_key signature changed')
+  cand, res = ps
+  inst = [c for c in walk_no_nested(fi.node) if isinstance(c, ast.Call) and unparse(c.func) == 'isinstance']
+  ok = False
+  for c in inst:
+    if len(c.args) == 2 and unparse(c.args[0]) == cand and unparse(c.args[1]) in (
+        f'type({res})', 'Reserved'):
+      ok = True
+  eq = any(isinstance(x, ast.Compare) and isinstance(x.ops[0], (ast.Eq, ast.Is))
+           and {unparse(x.left), unparse(x.comparators[0])} == {cand, res}
+           for x in walk_no_nested(fi.node))
+  if ok and eq:
+    ctx.ok(rule, fi, f'isinstance({cand}, type({res})) and {cand} == {res}', fi.node)
+  else:
+    ctx.fail(rule, fi, f'_is_key: isinstance({cand}, type({res})) and {cand} == {res}',
+             'the reserved-key test no longer requires the candidate key to be'
+             ' of the reserved type: a plain string key equal to a reserved'
+             ' name is treated as the sentinel (SELF returns the whole subtree,'
+             ' SKIP drops the value)', node=fi.node)
+  mi = repo.module(T)
+  sentinels = ('_SELF', '_SKIP', 'Key.SELF', 'Key.SKIP')
+  n = 0
+  for f2 in list(mi.functions.values()) + [mm for c in mi.classes.values() for mm in c.methods.values()]:
+    for c in walk_no_nested(f2.node):
+      if isinstance(c, ast.Call) and unparse(c.func) == '_is_key' and len(c.args) == 2:
+        n += 1
+        if unparse(c.args[1]) in sentinels and unparse(c.args[0]) not in sentinels:
+          ctx.ok(rule, f2, unparse(c), c)
+        else:
+          ctx.fail(rule, f2, c, f'`{unparse(c)}` does not pass the reserved'
+                   ' sentinel as the second argument')
+  ctx.floor(rule, 3, n + 1)
+
+
 from mlmverif.selfcheck import B, OK  # noqa: E402
 
 _F = 'chainables/tree.py'
 VARIANTS = [
+    B('tuple-branch-flips-in-place', _F,
+      '        container_maker = tuple\n        result = list(tree)',
+      '        container_maker = tuple\n        result, in_place = list(tree), True', 'R-C18-1'),
+    B('is-key-swapped', _F, '  return isinstance(key, type(other_key)) and key == other_key',
+      '  return isinstance(other_key, type(key)) and key == other_key', 'R-C18-4'),
     B('no-copy', _F, '      result = tree if in_place else copy.copy(tree)',
       '      result = tree', 'R-C18-1'),
     B('tuple-branch-aliases', _F,
